@@ -778,7 +778,16 @@ func r07CoordinateProvenance(c *core.Ctx) {
 					if !ok {
 						continue
 					}
-					fa, ok := st.Addr.(*ssa.FieldAddr)
+					// the field itself, or one ordinate of it (an array literal is built in place, element by element)
+					addr, partial := st.Addr, false
+					for {
+						ia, isIdx := addr.(*ssa.IndexAddr)
+						if !isIdx {
+							break
+						}
+						addr, partial = ia.X, true
+					}
+					fa, ok := addr.(*ssa.FieldAddr)
 					if !ok {
 						continue
 					}
@@ -794,7 +803,11 @@ func r07CoordinateProvenance(c *core.Ctx) {
 					construct := fmt.Sprintf("centroid-writer/%s/%s", fn.Name, field)
 					okw := false
 					why := st.Val.String()
-					if e, ok := st.Val.(*ssa.Extract); ok {
+					if partial {
+						construct += "/ordinate"
+						why = "one ordinate computed in place: " + why
+					}
+					if e, ok := st.Val.(*ssa.Extract); ok && !partial {
 						if call, ok := e.Tuple.(*ssa.Call); ok && call.Call.StaticCallee() != nil && call.Call.StaticCallee().Name() == "getQuadrantExtentAndCentroid" {
 							want := map[string]int{"intExtent": 0, "intCentroid": 1}[field]
 							okw = e.Index == want
